@@ -414,6 +414,13 @@ func clausesMention(fc *FuncContract, p string) bool {
 			}
 		}
 	}
+	for _, cs := range fc.CallSites {
+		for _, c := range cs {
+			if hasProp(c.Props, p) {
+				return true
+			}
+		}
+	}
 	return false
 }
 
